@@ -484,7 +484,22 @@ func (ch c11) session(c *core.Ctx, env *hs.Env, s c15session, maxVer uint16, cs 
 			t.conn.Pause()
 			c.Count("long_pauses_inside_tls_sessions", 1)
 		}
-		o, closed := t.step(in)
+		var o []byte
+		var closed bool
+		if i == len(s.Steps)-1 && idx%2 == 1 {
+			// the last message and the client's close_notify reach the server in one segment, together with
+			// the end of the stream (crypto/tls then hands the message to its reader along with io.EOF):
+			// it is served like the last message before a plaintext FIN
+			t.cc.Hold = true
+			t.tc.Write(in)
+			t.tc.CloseWrite()
+			t.cc.Hold = false
+			t.cc.FlushHeld(true)
+			o, closed = t.step(nil)
+			c.Count("last_message_and_close_notify_in_one_segment", 1)
+		} else {
+			o, closed = t.step(in)
+		}
 		if i >= len(ref.Outs) || !bytes.Equal(o, ref.Outs[i]) {
 			want := ""
 			if i < len(ref.Outs) {
